@@ -7,6 +7,7 @@ import Rpki.Model.Manifest
 import Rpki.Model.Roa
 import Rpki.Gen.Consts
 import Rpki.Model.CmsDer
+import Rpki.Gen.BerModel
 import Driver.CertShow
 namespace Driver.C02
 open Driver Rpki.Chain Rpki.Cert Rpki.SigObj
@@ -162,7 +163,19 @@ def handle (toks : List String) (impl : String) : Verdict :=
                 | some d =>
                   let ob' := Rpki.CmsDer.toObj d o.obj.sigKeyOk o.obj.sigInput eeRaw.facts.sigOk
                   modelLine ty now crlOk { o with dec := true, obj := ob' } issuer true
-            else modelLine ty now crlOk o issuer eeRaw.dec
+            else
+              -- relaxed (BER) operations: the mode-parametrized model at ber = true reads the object; the relaxed
+              -- validation inspects the EE certificate's names in the relaxed way
+              match objHex.bind hexB with
+              | none => "bad-op"
+              | some ob =>
+                match Rpki.CmsDer.decodeSigObjM true ob with
+                | none => "err"
+                | some d =>
+                  let ob' : Obj := { attrs := d.attrs, contentType := d.contentType, content := d.content, sid := d.sid,
+                                     sigKeyOk := o.obj.sigKeyOk, sigInput := o.obj.sigInput,
+                                     ee := Rpki.CertDer.toFactsM true d.cert false false eeRaw.facts.sigOk }
+                  modelLine ty now crlOk { o with dec := true, obj := ob' } issuer true
           let orc := oracle ty now crlOk o raws impl
           let orc := match orc with
             | some w => some w
